@@ -217,13 +217,15 @@ theorem future_kill_no_timer_witness :
 /-- `no_create_after_kill_set` (creation step): with a kill timestamp present — even a future one
 — or the admission-error annotation, `syncCreateTasks` returns the system state untouched: no
 call, no new pod.  The tasks it adds to the list (fix 5671da6) are read from the pod CACHE only:
-cached pods labelled with and controlled by this Job's uid that are not yet in the list. -/
+cached pods labelled with and controlled by this Job's uid that are not yet in the list and not
+recorded in the status (a recorded task that was not found is gone; the cache may hold a stale
+copy of it — fix 1fc2d37 "only adopt tasks that are not recorded"). -/
 theorem no_create_after_kill_set (s : Sys) (jo : JobObj) (rj : Job) (tasks : List Task)
     (h : rj.killTimestamp.isSome = true ∨ rj.admissionError = true) :
     syncCreateTasks s jo rj tasks = (s, some (rj, adoptUnrecordedTasks s jo tasks)) ∧
     (∀ t, t ∈ adoptUnrecordedTasks s jo tasks ↔
       t ∈ tasks ∨ ∃ p ∈ s.podCache, podTask p = some t ∧ p.jobLabel = some jo.uid ∧ p.ownerUid = some jo.uid ∧
-        ∀ t0 ∈ tasks, t0.name ≠ p.pod.name) := by
+        (∀ t0 ∈ tasks, t0.name ≠ p.pod.name) ∧ (∀ r ∈ jo.job.status.tasks, r.name ≠ p.pod.name)) := by
   have hcan : canCreateTask rj = false := by
     unfold canCreateTask
     rcases h with h | h
